@@ -126,3 +126,137 @@ func verifC09_Hist() {
 		hist[i] = a
 	}
 }
+
+// ---------------------------------------------------------------------------
+// Inductive step (any history length): ONE acquirePermission from an ARBITRARY
+// state (startTime T0, cycle c, tokens k) satisfying the representation
+// invariant 0 <= k <= M, M = L*(floor(T/p)+1), with the clock not before the
+// start of cycle c. Ghost reading of a state: R(j) = clamp(k - j*L, 0, L) admitted
+// requests are released in cycle c+j. The step must (1) admit iff fewer than M
+// permits are reserved from the current cycle on, (2) impose exactly the wait
+// that puts the request into the first cycle with a spare permit, 0 <= wait <= T,
+// (3) keep every earlier reservation in its cycle and add the new one:
+// R'(j) = R(delta+j) + [j == j*] <= L for every j, (4) preserve the invariant.
+// By induction no period ever releases more than L requests.
+// ---------------------------------------------------------------------------
+func vClamp(x, lo, hi int64) int64 {
+	if x < lo {
+		return lo
+	}
+	if x > hi {
+		return hi
+	}
+	return x
+}
+
+func verifC09_Step() {
+	p := vPolicy()
+	L := int64(p.LimitForPeriod)
+	per := int64(p.LimitRefreshPeriod)
+	T := int64(p.TimeoutDuration)
+	M := L * (T/per + 1)
+	horizon := int64(verifBound("horizon"))
+	t0 := verifInt("t0", 0, horizon)
+	c := verifInt("pre.cycle", 0, int64(verifBound("maxCycle")))
+	k := verifInt("pre.tokens", 0, int64(verifBound("maxLimit"))*(int64(verifBound("maxTimeout"))+1))
+	verifAssume(k <= M) // representation invariant: reservations never pass the timeout horizon
+	t := verifInt("now", 0, horizon)
+	verifAssume(t >= t0+c*per) // the clock does not run backwards
+	vMono = t
+	nowFunc = vNow
+	start := vNow()
+	verifSetField(&start, "ext", t0)
+	rl := &RateLimiter{policy: p, startTime: start, cycle: int(c), tokens: int(k)}
+
+	ok, w := rl.AcquirePermission()
+	wait := int64(w)
+
+	// the specification step
+	cNew := (t - t0) / per
+	delta := cNew - c
+	tp := k - delta*L
+	if tp < 0 {
+		tp = 0
+	}
+	verifAssert(ok == (tp < M), "admitted-iff-a-permit-is-free-within-the-timeout-horizon")
+	if !ok {
+		verifAssert(int64(rl.tokens) == k && int64(rl.cycle) == c, "rejection-leaves-the-state-unchanged")
+		verifCover("rejected")
+		return
+	}
+	jStar := tp / L
+	if tp < L {
+		verifAssert(wait == 0, "spare-permit-means-immediate")
+		verifCover("immediate")
+	} else {
+		verifAssert(wait == t0+per*(cNew+jStar)-t, "wait-until-the-first-cycle-with-a-spare-permit")
+		verifCover("delayed")
+	}
+	verifAssert(wait >= 0 && wait <= T, "wait-within-timeout")
+	verifAssert((t+wait-t0)/per == cNew+jStar, "released-in-the-reserved-cycle")
+	verifAssert(int64(rl.cycle) == cNew && int64(rl.tokens) == tp+1, "post-state")
+	verifAssert(int64(rl.tokens) >= 0 && int64(rl.tokens) <= M, "invariant-preserved")
+	// release accounting, for an arbitrary later cycle j
+	j := verifInt("ghost.j", 0, int64(verifBound("maxCycle"))+4)
+	before := vClamp(k-(delta+j)*L, 0, L)
+	after := vClamp(int64(rl.tokens)-j*L, 0, L)
+	add := int64(0)
+	if j == jStar {
+		add = 1
+	}
+	verifAssert(after == before+add, "earlier-reservations-keep-their-cycle-and-the-new-one-is-added")
+	verifAssert(after <= L, "at-most-limit-per-period")
+	if delta >= 2 {
+		verifCover("idle-gap-of-several-periods")
+	}
+	if (t-t0)%per == 0 {
+		verifCover("arrival-on-a-period-boundary")
+	}
+}
+
+// verifC09_MultiStep: the packet+byte limiter of the MQTT proxy (timeout 0): one step from an
+// arbitrary state satisfying packets <= L1 and bytes <= L2 - 1 + maxPacket. Admitted iff both
+// dimensions have a spare permit in the current period; so per period at most L1 packets are
+// admitted and the admitted bytes exceed L2 by less than one packet.
+func verifC09_MultiStep() {
+	L1 := int(verifConcrete(verifInt("requestRate", 1, int64(verifBound("maxLimit"))), int64(verifBound("maxLimit"))))
+	L2 := int(verifConcrete(verifInt("bytesRate", 1, int64(verifBound("maxBytes"))), int64(verifBound("maxBytes"))))
+	per := int64(verifConcrete(verifInt("period", 1, int64(verifBound("maxPeriod"))), int64(verifBound("maxPeriod"))))
+	maxPacket := int64(verifBound("maxPacket"))
+	pol := NewMultiPolicy(0, time.Duration(per), []int{L1, L2})
+	horizon := int64(verifBound("horizon"))
+	t0 := verifInt("t0", 0, horizon)
+	c := verifInt("pre.cycle", 0, int64(verifBound("maxCycle")))
+	k1 := verifInt("pre.packets", 0, int64(L1))
+	k2 := verifInt("pre.bytes", 0, int64(L2)-1+maxPacket)
+	t := verifInt("now", 0, horizon)
+	verifAssume(t >= t0+c*per)
+	vMono = t
+	nowFunc = vNow
+	start := vNow()
+	verifSetField(&start, "ext", t0)
+	rl := &MultiRateLimiter{policy: pol, startTime: start, cycle: int(c), tokens: []int{int(k1), int(k2)}}
+	n := verifInt("packetBytes", 1, maxPacket)
+	ok, w, err := rl.AcquirePermission([]int{1, int(n)})
+	verifAssert(err == nil, "no-error")
+	delta := (t-t0)/per - c
+	p1 := k1 - delta*int64(L1)
+	if p1 < 0 {
+		p1 = 0
+	}
+	p2 := k2 - delta*int64(L2)
+	if p2 < 0 {
+		p2 = 0
+	}
+	verifAssert(ok == (p1 < int64(L1) && p2 < int64(L2)), "admitted-iff-both-dimensions-have-a-spare-permit-in-this-period")
+	if ok {
+		verifAssert(w == 0, "timeout-zero-never-waits")
+		verifAssert(int64(rl.tokens[0]) == p1+1 && int64(rl.tokens[1]) == p2+n, "post-state")
+		verifAssert(int64(rl.tokens[0]) <= int64(L1), "at-most-requestRate-packets-per-period")
+		verifAssert(int64(rl.tokens[1]) <= int64(L2)-1+maxPacket, "bytes-exceed-bytesRate-by-less-than-one-packet")
+		verifCover("admitted")
+	} else {
+		verifAssert(int64(rl.tokens[0]) == k1 && int64(rl.tokens[1]) == k2, "rejection-leaves-the-state-unchanged")
+		verifCover("rejected")
+	}
+}
